@@ -305,6 +305,16 @@ theorem exchange_capacity (f : TransFns Rat) (step : State Rat → State Rat) (i
     simp only [hm, if_true, Bool.or_eq_false_iff, decide_eq_false_iff_not, not_lt] at g
     constructor <;> linarith [g.1, g.2]
 
+/-- a SURFACE row that passes `residuals` -/
+theorem surf_pass (f : TransFns Rat) (e : Env Rat) (it : Nat) (m fs : Rat) :
+    letI := ratOps f
+    (Row.surf m fs).fails e it = false → e.minRel < m →
+      (-(e.tol * m) ≤ m - fs ∧ m - fs ≤ e.tol * m) ∨
+      (-(e.ineqTol) < m - fs ∧ m - fs < e.ineqTol ∧ -(m / 100) < m - fs ∧ m - fs < m / 100) := by
+  intro h hm
+  simp only [Row.fails, absGt, absLt, NumOps.lit, NumOps.ofRat, id_eq] at h
+  split at h <;> simp at h <;> grind
+
 /-- **surface_sites** — the same for a SURFACE row, with the code's exemption for residuals below `ineq_tol` (1e-15 mol)
 that are also below 1 % of the sites -/
 theorem surface_sites (f : TransFns Rat) (step : State Rat → State Rat) (itmax n : Nat) (s s' : State Rat) (m fs : Rat) :
@@ -314,19 +324,7 @@ theorem surface_sites (f : TransFns Rat) (step : State Rat → State Rat) (itmax
       (-(s'.env.ineqTol) < m - fs ∧ m - fs < s'.env.ineqTol ∧ -(m / 100) < m - fs ∧ m - fs < m / 100) := by
   letI := ratOps f
   intro h hr hm
-  have g := (gate_rows step itmax n s s' h _ hr).1
-  have hm' : ¬ m ≤ s'.env.minRel := by linarith
-  simp only [Row.fails, absGt, absv, hm', if_false, NumOps.lit, NumOps.ofRat, id_eq] at g
-  by_cases hx : (decide ((if m - fs < 0 then -(m - fs) else m - fs) < s'.env.ineqTol) &&
-      decide ((if m - fs < 0 then -(m - fs) else m - fs) < 1 / 100 * m)) = true
-  · right
-    simp only [Bool.and_eq_true, decide_eq_true_eq] at hx
-    obtain ⟨h1, h2⟩ := hx
-    split at h1 <;> split at h2 <;> refine ⟨?_, ?_, ?_, ?_⟩ <;> linarith
-  · left
-    rw [if_neg hx] at g
-    simp only [Bool.or_eq_false_iff, decide_eq_false_iff_not, not_lt] at g
-    constructor <;> linarith [g.1, g.2]
+  exact surf_pass f s'.env s'.iterations m fs (gate_rows step itmax n s s' h _ hr).1 hm
 
 /-! ## 5. the loop keeps what its body keeps -/
 
@@ -368,5 +366,86 @@ theorem model_ok_phases_valid_all (f : TransFns Rat) (step : State Rat → State
   intro Inv hstep hi h hL htol hε u hu ha
   have hinv := runModel_invariant f step itmax n s s' Inv hstep hi h u hu
   exact model_ok_phases_valid f step itmax n s s' u ε h hu ha hL htol hε hinv.1 hinv.2.1 hinv.2.2
+
+/-! ## 6. non-vacuity: concrete instances -/
+
+def toyFns : TransFns Rat :=
+  { log10 := id, exp10 := id, ln := fun _ => 23 / 10, exp := id, sqrt := id, sinh := id, cos := id, acos := id, cbrt := id, floor := id }
+
+def toyEnv : Env Rat := { tol := 1 / 100000000, ineqTol := 1 / 1000000000000000, minRel := 1 / 100000000000000000000000 }
+
+/-- phase A: present (1 mmol) but undersaturated by one log unit; phase B: absent and supersaturated by half a unit;
+phase C: dissolve_only at its initial amount and supersaturated (allowed); an exchanger with exact capacity -/
+def toyStart : State Rat :=
+  letI := ratOps toyFns
+  { env := toyEnv, iterations := 0, removeUnstable := false, other := true, otherErr := false,
+    rows := [Row.pp { moles := 1 / 1000, f := 1, dissolveOnly := false, addFormula := false, initial := 1 / 1000, inert := 0 },
+             Row.pp { moles := 0, f := -1 / 2, dissolveOnly := false, addFormula := false, initial := 0, inert := 0 },
+             Row.pp { moles := 1 / 50, f := -3, dissolveOnly := true, addFormula := false, initial := 1 / 50, inert := 0 },
+             Row.exch (1 / 10) (1 / 10)] }
+
+/-- a loop body: in the "remove unstable phases" pass it applies `ineq`'s special case and `reset()`;
+otherwise it precipitates 10 mmol of every supersaturated unrestricted phase, which brings it to equilibrium -/
+def toyStep (s : State Rat) : State Rat :=
+  letI := ratOps toyFns
+  { s with rows := s.rows.map fun r => match r with
+      | Row.pp u =>
+          if s.removeUnstable then Row.pp (resetApply s.env u (removeDelta u))
+          else if u.f < 0 ∧ u.dissolveOnly = false then Row.pp { u with moles := u.moles + 1 / 100, f := 0 } else Row.pp u
+      | r => r }
+
+def molesOf : Row Rat → Rat
+  | Row.pp u => u.moles
+  | Row.ss _ _ m => m
+  | Row.exch m _ => m
+  | Row.surf m _ => m
+
+-- the start is not accepted (iteration 0), too little fuel or too few iterations end without a result, …
+example : letI := ratOps toyFns; converged toyStart = false := by decide +kernel
+example : letI := ratOps toyFns; (runModel toyStep 100 3 toyStart).isSome = false := by decide +kernel
+example : letI := ratOps toyFns; (runModel toyStep 1 10 toyStart).isSome = false := by decide +kernel
+-- … with enough of both the call completes after the re-entry: A was removed completely, B precipitated, C untouched
+example : letI := ratOps toyFns;
+    (runModel toyStep 100 10 toyStart).map (fun s => (s.rows.map molesOf, s.iterations, s.removeUnstable)) =
+      some ([0, 1 / 100, 1 / 50, 1 / 10], 2, false) := by decide +kernel
+-- every pure phase of the result is a ValidPhase at 1e-6 (A absent & undersaturated, B present at SI = target,
+-- C dissolve_only at its initial amount and supersaturated)
+example : letI := ratOps toyFns;
+    ((runModel toyStep 100 10 toyStart).map fun s => s.rows.all fun r => match r with
+      | Row.pp u => validPhaseB (1 / 1000000) u.final
+      | _ => true) = some true := by decide +kernel
+-- the predicate is not trivially true: present & undersaturated, absent & supersaturated, dissolve_only above its
+-- initial amount and precipitate_only below it are all rejected
+example : letI := ratOps toyFns; validPhaseB (1 / 1000000 : Rat) { moles := 1 / 1000, d := -1, initial := 0, dissolveOnly := false, precipOnly := false } = false := by decide +kernel
+example : letI := ratOps toyFns; validPhaseB (1 / 1000000 : Rat) { moles := 0, d := 1 / 2, initial := 0, dissolveOnly := false, precipOnly := false } = false := by decide +kernel
+example : letI := ratOps toyFns; validPhaseB (1 / 1000000 : Rat) { moles := 2, d := 0, initial := 1, dissolveOnly := true, precipOnly := false } = false := by decide +kernel
+example : letI := ratOps toyFns; validPhaseB (1 / 1000000 : Rat) { moles := 1 / 2, d := 0, initial := 1, dissolveOnly := false, precipOnly := true } = false := by decide +kernel
+-- the gate: a supersaturated absent phase is an ERROR of check_residuals, a present undersaturated one asks for another pass
+example : letI := ratOps toyFns;
+    (Row.pp { moles := 0, f := -1 / 2, dissolveOnly := false, addFormula := false, initial := 0, inert := 0 } : Row Rat).check toyEnv = (true, false) := by decide +kernel
+example : letI := ratOps toyFns;
+    (Row.pp { moles := 1, f := 1 / 1000000, dissolveOnly := false, addFormula := false, initial := 0, inert := 0 } : Row Rat).check toyEnv = (false, true) := by decide +kernel
+-- 100·tol/ln10 = 4.3e-7 < 1e-6: a present phase 4e-7 log units below its target passes both tests (hypothesis of the theorem)
+example : letI := ratOps toyFns;
+    (Row.pp { moles := 1, f := 4 / 10000000, dissolveOnly := false, addFormula := false, initial := 0, inert := 0 } : Row Rat).check toyEnv = (false, false) := by decide +kernel
+example : (toyEnv.tol * 100 ≤ (1 / 1000000 : Rat) * toyFns.ln 10) := by decide +kernel
+-- reset(): 3 mmol present, cl1 asks to dissolve 5 mmol of it and 1 mmol of a second phase: the common factor 5/3 scales
+-- both, the first ends at exactly 0, the second keeps 2 − 0.6 mmol; a dissolve_only phase 1 mmol below its initial amount
+-- that is asked to precipitate 4 mmol gets factor 4 and ends exactly at its initial amount
+example : letI := ratOps toyFns;
+    (resetPP toyEnv [({ moles := 3 / 1000, f := 1, dissolveOnly := false, addFormula := false, initial := 0, inert := 0 }, 5 / 1000),
+                     ({ moles := 2 / 1000, f := 1, dissolveOnly := false, addFormula := false, initial := 0, inert := 0 }, 1 / 1000)]).map (·.moles)
+      = [0, 2 / 1000 - 3 / 5000] := by decide +kernel
+example : letI := ratOps toyFns;
+    (resetPP toyEnv [({ moles := 4 / 1000, f := -1, dissolveOnly := true, addFormula := false, initial := 5 / 1000, inert := 0 }, -4 / 1000)]).map (·.moles)
+      = [5 / 1000] := by decide +kernel
+-- fractions of an ideal three-component solid solution
+example : letI := ratOps toyFns; ssIdeal [1 / 10, 3 / 10, 1 / 10] = [1 / 5, 3 / 5, 1 / 5] := by decide +kernel
+example : letI := ratOps toyFns; sumL (ssIdeal [1 / 10, 3 / 10, 1 / 10 : Rat]) = 1 := by decide +kernel
+-- binary: outside the gap the fractions are n/ntot, inside (0.1 < xb < 0.8) the composition is pinned to xb1
+example : letI := ratOps toyFns;
+    ((ssBinary 3 0 true (1 / 10) (8 / 10) (1 / 2) (1 / 2) 1).xb, (ssBinary 3 0 true (1 / 10) (8 / 10) (19 / 20) (1 / 20) 1).xb) = ((1 / 10 : Rat), (1 / 20 : Rat)) := by
+  decide +kernel
+example : letI := ratOps toyFns; guggParams 7 (5 : Rat) 1 (5 / 2) = some (2, 2 / 5) := by decide +kernel
 
 end PhreeqcVerif.Assemblage
